@@ -39,13 +39,15 @@ type Sample struct {
 	First  []string `json:"first_steps"`
 }
 
-func hasSetting(op *Op, id uint32) (uint32, bool) {
+// hasSetting: the value of identifier id that a SETTINGS frame puts in force - its LAST occurrence
+// (RFC 7540 6.5.3: the values are processed in the order in which they appear).
+func hasSetting(op *Op, id uint32) (v uint32, ok bool) {
 	for _, kv := range op.Settings {
 		if kv[0] == id {
-			return kv[1], true
+			v, ok = kv[1], true
 		}
 	}
-	return 0, false
+	return v, ok
 }
 
 // dynTable reports whether the relay's encoder towards `who` may use a dynamic table at some point:
@@ -202,7 +204,7 @@ func modelVariant(root string) string {
 
 // Evaluate judges one executed case for property prop.
 func Evaluate(ctx *core.Ctx, prop string, c Case, res *Result) {
-	replay := Case{Kind: "h2", Seed: c.Seed, Params: c.Params, Ops: res.Ops, Final: res.Final, Note: c.Note}
+	replay := Case{Kind: "h2", Seed: c.Seed, Params: c.Params, Ops: res.Ops, Final: res.Final, Note: c.Note, TimeoutMs: c.TimeoutMs}
 	if len(res.Ops) == 0 {
 		replay.Ops = c.Ops
 	}
@@ -213,6 +215,13 @@ func Evaluate(ctx *core.Ctx, prop string, c Case, res *Result) {
 		return
 	}
 	if strings.HasPrefix(res.Hung, "rig:") {
+		if c.Params.E2E != nil && prop == "C10" {
+			// the relay is reached through proxy_conn.go here: not coming up is the proxy's doing
+			ctx.Case(fmt.Sprintf("e2e-setup:%d", c.Seed), true)
+			ctx.Count("outcome/e2e-not-established")
+			ctx.SpecFail(clausesOf["C10"]["delivery"], "", replay, res.Hung, "no HTTP/2 relay behind CONNECT + TLS(ALPN h2) through the intercepting proxy (3 attempts): "+res.Hung)
+			return
+		}
 		core.Fatalf("h2rig could not start a relay: %s", res.Hung)
 	}
 	h := sha256.Sum256([]byte(strings.Join(res.Lines, " ")))
@@ -223,9 +232,32 @@ func Evaluate(ctx *core.Ctx, prop string, c Case, res *Result) {
 	nData, nPadded, nCont, nQueuedRelease := 0, 0, 0, 0
 	streams := map[uint32]bool{}
 	maxAdv := map[string]int{"c": 16384, "s": 16384}
+	switch {
+	case c.Params.E2E != nil:
+		ctx.Count("family/end-to-end/" + c.Params.E2E.Mode)
+		ctx.Count(fmt.Sprintf("e2e/timeouts idle=%v read=%v read-header=%v write=%v mitm-handshake=%v", c.Params.E2E.IdleMs > 0, c.Params.E2E.ReadMs > 0, c.Params.E2E.ReadHeaderMs > 0, c.Params.E2E.WriteMs > 0, c.Params.E2E.MITMHsMs > 0))
+	case c.Params.Conc > 0:
+		ctx.Count("family/concurrent")
+	default:
+		ctx.Count("family/barrier-per-frame")
+	}
 	for i := range res.Ops {
 		op := &res.Ops[i]
 		ctx.Count("op/" + op.Kind)
+		if op.Kind == "burst" {
+			countBurst(ctx, op)
+		}
+		if op.Kind == "set" {
+			ids := map[uint32]int{}
+			for _, kv := range op.Settings {
+				ids[kv[0]]++
+			}
+			for id, n := range ids {
+				if n > 1 {
+					ctx.Count(fmt.Sprintf("set/id=%d-repeated-in-one-frame", id))
+				}
+			}
+		}
 		if op.Kind == "data" && op.Len > maxAdv[otherSide(op.Side)] {
 			ctx.Count("relay/must-split-data")
 		}
@@ -382,6 +414,16 @@ func Evaluate(ctx *core.Ctx, prop string, c Case, res *Result) {
 		}
 	}
 	if prop == "C10" {
+		judgeWire(ctx, replay, res)
+		if e := c.Params.E2E; e != nil {
+			// Model/H2Handoff.lean: what handleMITM leaves armed on the client socket when it hands it to the relay
+			ans := ctx.Model.MustAsk("C10", "handoff", fmt.Sprint(e.IdleMs), fmt.Sprint(e.ReadMs), fmt.Sprint(e.ReadHeaderMs), fmt.Sprint(e.WriteMs), fmt.Sprint(e.MITMHsMs), fmt.Sprint(e.HoldMs))
+			alive := res.Hung == ""
+			if (ans == "alive") != alive {
+				ctx.Disagree("a connection handed to the HTTP/2 relay carries no HTTP/1 deadline (Model.H2Handoff): it is still relayed after the hold", replay,
+					fmt.Sprintf("alive=%v %s", alive, res.Hung), ans)
+			}
+		}
 		for _, d := range res.DataBad {
 			ctx.SpecFail(clausesOf["C10"]["fidelity"], "", replay, d, "DATA octets received differ from the octets sent")
 		}
@@ -395,6 +437,94 @@ func Evaluate(ctx *core.Ctx, prop string, c Case, res *Result) {
 	}
 	if len(res.Late) > 0 && res.Hung == "" {
 		ctx.Disagree("nothing arrives after the final barrier", replay, strings.Join(res.Late, " "), "no frame")
+	}
+}
+
+func countBurst(ctx *core.Ctx, op *Op) {
+	conts, direct, data := 0, 0, 0
+	for _, l := range [][]Op{op.Main, op.Cross} {
+		for i := range l {
+			ctx.Count("burst-op/" + l[i].Kind)
+			switch l[i].Kind {
+			case "cont":
+				conts++
+			case "ping", "set", "ack", "goaway":
+				direct++
+			case "data":
+				data++
+			}
+		}
+	}
+	blocks := 0
+	for _, l := range [][]Op{op.Main, op.Cross} {
+		start := ""
+		for i := range l {
+			if l[i].Kind == "hdr" || l[i].Kind == "pp" {
+				start = l[i].Kind
+			}
+			if isBlockOp(l[i].Kind) && l[i].EH && l[i].ReencLen > 16384 {
+				blocks++
+				n, bucket := (l[i].ReencLen+16383)/16384, "2-4"
+				switch {
+				case n >= 20:
+					bucket = "20+"
+				case n >= 10:
+					bucket = "10-19"
+				case n >= 5:
+					bucket = "5-9"
+				}
+				ctx.Count(fmt.Sprintf("burst/block-%s-of-%s-frames-to-%s", start, bucket, otherSide(l[i].Side)))
+			}
+		}
+	}
+	if blocks > 1 {
+		ctx.Count("burst/blocks-both-ways")
+	}
+	if direct > 0 {
+		ctx.Count("burst/direct-writes-of-the-reader")
+	}
+	if len(op.Cross) > 0 && data > 0 {
+		ctx.Count("burst/window-updates-of-the-peer-relay")
+	}
+}
+
+// judgeWire: RFC 7540 6.10 on the order in which frames arrived at each raw endpoint - by the
+// endpoint's read loop (WireBad) and, for the cases that record the arrival order, by H2.wireOk.
+func judgeWire(ctx *core.Ctx, replay Case, res *Result) {
+	text := clausesOf["C10"]["framing"]
+	for k, n := range res.Stats {
+		if strings.HasPrefix(k, "wire-violation-by-") {
+			ctx.CountN("wire/"+k, n)
+		}
+	}
+	for _, w := range res.WireBad {
+		ctx.SpecFail(text, "", replay, w, "a frame arrived inside a header block (RFC 7540 6.10): "+w)
+	}
+	for _, side := range []string{"c", "s"} {
+		tags := res.Arrival[side]
+		if len(tags) == 0 {
+			continue
+		}
+		ctx.CountN("wire/frames-in-arrival-order-judged", len(tags))
+		ans := ctx.Model.MustAsk(append([]string{"C10", "wire"}, tags...)...)
+		goBad := false
+		for _, w := range res.WireBad {
+			if strings.HasPrefix(w, side+":") {
+				goBad = true
+			}
+		}
+		switch {
+		case ans == "true":
+			if goBad {
+				ctx.Disagree("H2.wireOk and the raw endpoint's read loop agree on RFC 7540 6.10", replay, "read loop: violated", "wireOk: holds")
+			}
+		case strings.HasPrefix(ans, "false "):
+			if !goBad {
+				ctx.SpecFail(text, "", replay, ans, "arrival order at "+side+" violates RFC 7540 6.10 (H2.wireOk): "+ans)
+			}
+		default:
+			core.Fatalf("unexpected answer from the model: %q", ans)
+		}
 	}
 }
 
@@ -417,6 +547,49 @@ func MakeCases(ctx *core.Ctx, n int, flowOnly bool) []Case {
 			p.NOps = r.Range(20, 200)
 		}
 		cs = append(cs, Case{Kind: "h2", Seed: r.U64(), Params: p})
+	}
+	return cs
+}
+
+// MakeConcCases: the concurrent family (gen_conc.go).
+func MakeConcCases(ctx *core.Ctx, n int) []Case {
+	var cs []Case
+	for i := 0; i < n; i++ {
+		r := ctx.Rng.Sub()
+		cs = append(cs, Case{Kind: "h2", Seed: r.U64(), Params: Params{Conc: r.Range(8, 14)}, TimeoutMs: 20000})
+	}
+	return cs
+}
+
+// MakeE2ECases: the end-to-end family (rig_e2e.go): every HTTP/1 timeout of the intercepting proxy is
+// 300-500 ms or unset, with and without a MITM handshake timeout; the HTTP/2 connection is kept for
+// 3-5 times the largest of them and then used again.
+func MakeE2ECases(ctx *core.Ctx, n int) []Case {
+	var cs []Case
+	for i := 0; i < n; i++ {
+		r := ctx.Rng.Sub()
+		t := func(pct int) int {
+			if r.Chance(pct) {
+				return core.Pick(r, []int{300, 350, 400, 500})
+			}
+			return 0
+		}
+		e := &E2E{IdleMs: t(65), ReadMs: t(50), ReadHeaderMs: t(50), WriteMs: t(50), Mode: core.Pick(r, []string{"idle", "busy"})}
+		if e.IdleMs == 0 && e.ReadMs == 0 && r.Chance(80) {
+			e.IdleMs = 300
+		}
+		if i%2 == 1 {
+			e.MITMHsMs = core.Pick(r, []int{1000, 2000, 5000})
+		}
+		largest := 300
+		for _, v := range []int{e.IdleMs, e.ReadMs, e.ReadHeaderMs, e.WriteMs} {
+			if v > largest {
+				largest = v
+			}
+		}
+		e.HoldMs = largest * r.Range(3, 5)
+		p := Params{NOps: r.Range(16, 40), Streams: r.Range(1, 3), Tbl0C: r.Chance(50), Tbl0S: r.Chance(50), Profile: r.Intn(4), E2E: e}
+		cs = append(cs, Case{Kind: "h2", Seed: r.U64(), Params: p, TimeoutMs: 10000})
 	}
 	return cs
 }
@@ -445,6 +618,27 @@ func Run(ctx *core.Ctx, prop string, quick, thorough int, flowOnly bool) {
 	}
 	nCorpus := len(cases)
 	cases = append(cases, MakeCases(ctx, ctx.N(quick, thorough), flowOnly)...)
+	// the concurrent and the end-to-end family run beside the main one, in child processes of their own
+	var famWG sync.WaitGroup
+	var famErr [2]error
+	if prop == "C10" {
+		fams := [][]Case{MakeConcCases(ctx, ctx.N(12, 120)), MakeE2ECases(ctx, ctx.N(8, 64))}
+		for k, fc := range fams {
+			famWG.Add(1)
+			go func() {
+				defer famWG.Done()
+				famErr[k] = RunAll(fc, 4, func(i int, c Case, res *Result) { Evaluate(ctx, prop, c, res) })
+			}()
+		}
+	}
+	defer func() {
+		famWG.Wait()
+		for _, e := range famErr {
+			if e != nil {
+				core.Fatalf("h2rig: cannot start a child process: %v", e)
+			}
+		}
+	}()
 	var hungUnexplained atomic.Int32
 	err := RunAllUntil(cases, Workers(), func(i int, c Case, res *Result) {
 		Evaluate(ctx, prop, c, res)
